@@ -138,6 +138,7 @@ func richSubtitles(r *fw.Rand) *astisub.Subtitles {
 	ns, nr := r.Intn(7), r.Intn(7)
 	caseIDs := r.P(1, 4)
 	namedIDs := !caseIDs && r.P(1, 3)
+	padIDs := !caseIDs && !namedIDs && r.P(1, 4)
 	var styles []*astisub.Style
 	for k := 0; k < ns; k++ {
 		sa := &astisub.StyleAttributes{}
@@ -162,6 +163,9 @@ func richSubtitles(r *fw.Rand) *astisub.Subtitles {
 			// the names an SSA script would use, "Default" among names that sort before and after it
 			st.ID = []string{"Default", "Alt", "Sign", "1st", "default", "Caption", "*Default"}[k]
 		}
+		if padIDs {
+			st.ID = []string{"s", "s0", "s00", "s1", "s01", "s10", "s010"}[k]
+		}
 		if k > 0 && r.Bool() {
 			st.Style = styles[r.Intn(k)]
 		}
@@ -174,6 +178,9 @@ func richSubtitles(r *fw.Rand) *astisub.Subtitles {
 	var regions []*astisub.Region
 	for k := 0; k < nr; k++ {
 		rg := &astisub.Region{ID: fmt.Sprintf("region%d", k), InlineStyle: ttmlSetAttrs(ttmlGenAttrs(r, 6))}
+		if padIDs {
+			rg.ID = []string{"r1", "r01", "r001", "r10", "r010", "r", "r0"}[k] // numbered with and without zeros in front
+		}
 		if r.Bool() {
 			rg.InlineStyle.WebVTTLines, rg.InlineStyle.WebVTTWidth, rg.InlineStyle.WebVTTScroll = r.Range(1, 5), "40%", "up"
 		}
@@ -189,7 +196,7 @@ func richSubtitles(r *fw.Rand) *astisub.Subtitles {
 	if r.P(5, 6) {
 		cd := time.Date(2019, 3, 4, 0, 0, 0, 0, time.UTC)
 		mnc := 38
-		md := &astisub.Metadata{Title: fw.Pick(r, []string{"T", "T", "A title that is a good deal longer than thirty-two bytes", "Épisode n° 12 «été» — l'intégrale restaurée"}), Language: fw.Pick(r, []string{"", "english", "french", "norwegian", "chinese", "japanese"}), TTMLCopyright: "C", Comments: []string{"c1"}, SSAScriptType: fw.Pick(r, []string{"v4.00", "v4.00+", ""}),
+		md := &astisub.Metadata{Title: fw.Pick(r, []string{"T", "T", "A title that is a good deal longer than thirty-two bytes", "Épisode n° 12 «été» — l'intégrale restaurée"}), Language: fw.Pick(r, []string{"", "english", "french", "norwegian", "chinese", "japanese"}), TTMLCopyright: "C", Comments: fw.Pick(r, [][]string{{"c1"}, {"c1"}, {"first line\nsecond line", "c2"}}), SSAScriptType: fw.Pick(r, []string{"v4.00", "v4.00+", ""}),
 			Framerate: fw.Pick(r, []int{0, 25, 30}), STLDisplayStandardCode: fw.Pick(r, []string{"", "0", "1"}), STLMaximumNumberOfDisplayableCharactersInAnyTextRow: &mnc}
 		switch r.Intn(5) {
 		case 0:
@@ -252,12 +259,18 @@ func richSubtitles(r *fw.Rand) *astisub.Subtitles {
 				li := astisub.LineItem{Text: fw.Pick(r, []string{"hello", "World & co", "naïve café", "a<b", "x y"})}
 				if r.Bool() {
 					tr := true
-					col := fw.Pick(r, []string{"#ff0000", "#ff0000", "#FF0000", " Red ", "RGBA(1,2,3,4)"}) // as other formats' parsers or a caller may leave them
+					col := fw.Pick(r, []string{"#ff0000", "#ff0000", "#FF0000", " Red ", "RGBA(1,2,3,4)", "#00ffff", "#ffff00", "#00ff00", "#ff00ff", "#0000ff", "#ffffff", "#000000", "#00FFFF"}) // as other formats' parsers or a caller may leave them
 					li.InlineStyle = &astisub.StyleAttributes{SRTBold: r.Bool(), SRTItalics: r.Bool(), STLItalics: &tr, SSAEffect: fw.Pick(r, []string{"", `{\i1}`}), TTMLColor: &col,
 						WebVTTTags: []astisub.WebVTTTag{{Name: "c", Classes: fw.Pick(r, [][]string{{"x"}, {"loud", "big"}, {"z", "a", "m"}})}}}
 					if r.Bool() {
 						li.InlineStyle.SRTColor = &col
 					}
+				}
+				if li.InlineStyle == nil && r.P(1, 6) {
+					// a run that only carries what a teletext source said about it (colour, size), set by hand or left after
+					// the derived colour was cleared
+					dh := true
+					li.InlineStyle = &astisub.StyleAttributes{TeletextColor: fw.Pick(r, []*astisub.Color{astisub.ColorYellow, astisub.ColorCyan, astisub.ColorWhite}), TeletextDoubleHeight: &dh}
 				}
 				if ns > 0 && r.P(1, 3) {
 					li.Style = styles[r.Intn(ns)]
